@@ -7,3 +7,60 @@ def region(name):
         REGIONS[name] = fn
         return fn
     return deco
+
+
+# ---------------------------------------------------------------------------------------------
+# C08 (label renaming), segment: a frame that lies in no interval gets the fill value None from
+# util.intervals_to_samples, and util.index_labels reads every label through str(.).lower(): the missing label and a
+# segment label SPELLED "None" / "none" become one class.  Renaming that label to anything else (or another label to
+# "none") separates / merges the two and changes every frame-clustering score.  Complement of the hypothesis `hnone` of
+# Mir.C08.Segment.renamingFaithful_of_labels.
+def _reads_none(lab):
+    return str(lab).lower() == "none"
+
+
+def _leaves_time_uncovered(ivs):
+    """some part of [0, largest end] lies in no interval (exact arithmetic on the 'p/q' strings)"""
+    from fractions import Fraction as Fr
+    rows = sorted((Fr(a), Fr(b)) for a, b in ivs)
+    reach = Fr(0)
+    for a, b in rows:
+        if a > reach:
+            return True
+        reach = max(reach, b)
+    return False
+
+
+@region("segment_none_label_with_unlabelled_frames")
+def segment_none_label_with_unlabelled_frames(inp, what=""):
+    if "label renaming" not in what:
+        return False
+    for side in ("ref", "est"):
+        ivs, labs = inp[side]
+        if ivs and any(_reads_none(x) for x in labs) and _leaves_time_uncovered(ivs):
+            return True
+    return False
+
+
+# ---------------------------------------------------------------------------------------------
+# C16, large scale: segment._adjusted_mutual_info_score casts the marginals to int32 and takes np.outer(a, b): as soon
+# as (frames of one reference label) * (frames of one estimated label) >= 2^31 the product wraps, log() of it is nan or
+# wrong, and so is the expected MI and the adjusted MI (nan, or a value above 1).  MI and NMI are not affected.
+def _label_frames(rows, fs):
+    """frames per label (modulo case) of a contiguous segmentation [[s, e, label]]: frame i sits at i * fs"""
+    from fractions import Fraction as Fr
+    out = {}
+    for s, e, l in rows:
+        k = -((-Fr(e)) // fs) - (-((-Fr(s)) // fs))
+        out[str(l).lower()] = out.get(str(l).lower(), 0) + int(k)
+    return out
+
+
+@region("segment_ami_cluster_size_product_int32")
+def segment_ami_cluster_size_product_int32(inp, what=""):
+    from fractions import Fraction as Fr
+    if "Adjusted Mutual Information" not in what or "ref" not in inp or "frame_size" not in inp:
+        return False
+    fs = Fr(inp["frame_size"])
+    a, b = _label_frames(inp["ref"], fs), _label_frames(inp["est"], fs)
+    return bool(a) and bool(b) and max(a.values()) * max(b.values()) >= 2 ** 31
